@@ -416,7 +416,34 @@ func c18(r *mon.Run) {
 				t.Count("embedded-struct cases with a non-null expected result")
 			}
 		}}
-	r.Exec(eq, paths, oddw, emb, safety, hostile)
+	// anonymous struct types and function-local types sharing a name: every ordered pair of field paths in
+	// one expression (one interpreter sees both types), as a multi-select and as a pipe
+	AP := docs.AnonPaths
+	anon := mon.Workload{Name: "anonymous-and-local-struct-types", N: len(AP) * len(AP) * 2,
+		Do: func(i int, t *mon.Tally) {
+			p, q := AP[i/2%len(AP)], AP[i/2/len(AP)]
+			expr := "[" + p + ", " + q + ", " + p + "]"
+			if i%2 == 1 {
+				expr = "[" + p + ", @] | [1]." + q
+			}
+			mk := func() interface{} { return docs.AnonDoc(gen.DeriveN(r.Seed, "c18anon", i%5)) }
+			jform := docs.JSONForm(mk())
+			t.Eval()
+			want := apiSearch(expr, jform)
+			for q, o := range []mon.Observed{apiSearch(expr, mk()), apiCompiledSearch(expr, mk())} {
+				if !o.Panicked && o.Err == nil {
+					o.V = docs.JSONForm(o.V)
+				}
+				if o.Panicked || (o.Err == nil) != (want.Err == nil) || (o.Err == nil && !mon.JSONEqual(o.V, want.V)) {
+					r.Violate(&mon.Violation{Workload: "anonymous-and-local-struct-types", Index: i, API: []string{"Search", "Compile+Search"}[q], Expr: expr, Doc: jform,
+						DocDesc: "Go form: " + clipStr(mon.Snapshot(mk()), 900), Expected: want.String() + " (the answer on the JSON form)", Observed: o.String(), Class: "anonymous/local struct types: differs from the JSON form"})
+					return
+				}
+			}
+			t.Nontrivial("anon:" + expr)
+			t.Count("anonymous / local struct type cases agreeing with the JSON form")
+		}}
+	r.Exec(eq, paths, oddw, emb, anon, safety, hostile)
 }
 
 func pickKey(operand string) string {
